@@ -561,6 +561,8 @@ def run(chk):
     regen_tables()
     from translator import gen_limits
     gen_limits.main([])          # Gen/Limits.lean: constants and limits read from the current source
+    chk.trusted.append("translator/gen_limits.py (constants / limits of the source -> Gen/Limits.lean: compiled probe + "
+                       "preprocessed function bodies at named anchors; tied to the model numerals by Props/Limits/C05.lean)")
     LIM.update({k: v for k, v in gen_limits.values().items() if v is not None})
     problems = chk.prove(MODULES, AUDIT, want_leanchecker=(chk.tier == "thorough"))
     exe, err = core.build_harness(HARNESS)
